@@ -152,6 +152,24 @@ def check_who_may_delete(ctx, facts):
                                 ok = False
                                 ctx.violate("C12.1", F, "pending-set-fed-from-other-channel", b.relfile, ins.line,
                                             "paths queued for deletion are received from a channel other than the one published as DELETION_TX")
+            # the set filled in one go: `pending.extend(rx.try_iter())`
+            for ins in b.calls(re.compile(r"::extend$")):
+                if not ins.node["args"] or borrowed_local(b, ins.node["args"][0]) != pend:
+                    continue
+                n_ins += 1
+                isrc, _, _ = origins(b, ins.node["args"][1], follow_all_calls=True, stop_calls=[r"mpsc::Receiver::(try_iter|iter)$"])
+                rx = [o for o in isrc if o.kind == "call" and re.search(r"mpsc::Receiver::(try_iter|iter)$", o.what)]
+                other = [o for o in isrc if o.kind == "call" and not re.search(r"mpsc::Receiver::(try_iter|iter)$|::inspect$|::into_iter$|::map$|::filter$", o.what)]
+                if not rx or other or any(o.kind in ("arg", "static") for o in isrc):
+                    ok = False
+                    ctx.violate("C12.1", F, "pending-set-fed-from-elsewhere", b.relfile, ins.line, "a path is queued for deletion that does not come from the deletion channel")
+                else:
+                    for o in rx:
+                        rl = borrowed_local(b, o.site.node["args"][0])
+                        if not receiver_is_deletion_channel(facts, b, rl):
+                            ok = False
+                            ctx.violate("C12.1", F, "pending-set-fed-from-other-channel", b.relfile, ins.line,
+                                        "paths queued for deletion are received from a channel other than the one published as DELETION_TX")
             if ok and n_ins:
                 ctx.ok("C12.1", F, "remove_file only on paths received from the deletion channel", b.relfile, s.line)
             elif not n_ins:
@@ -395,6 +413,10 @@ def check_marks(ctx, facts):
             elif caller == "walrus::Walrus::startup_chore":
                 asrc, _, _ = origins(b, s.node["args"][0], passthrough_extra=[r"slice::(get|first|last|get_unchecked)$", r"::take$", r"::skip$", r"::rev$", r"::filter$"])
                 from_chain = any(o.kind == "field" and o.what[1] == "chain" for o in asrc) and any(o.kind == "field" and o.what[1] == "id" for o in asrc)
+                if not from_chain and any(o.kind == "call" and re.search(r"Option::(map|and_then)$", o.what) for o in asrc):
+                    # `chain.get(ib).map(|blk| (blk.id, blk.used))`: the id is read inside the mapping closure
+                    asrc, _, _ = origins(b, s.node["args"][0], follow_all_calls=True)
+                    from_chain = any(o.kind == "field" and o.what[1] == "chain" for o in asrc) and any(o.kind == "field" and o.what[1] == "id" for o in asrc)
                 # dominated by the Some edge of WalIndex::get
                 have_pos = False
                 for T in all_tests(b):
